@@ -281,7 +281,7 @@ fn c16_verbatim_no_panic() {
     kani::cover!(!ok);
 }
 
-//@ unit props=C16 tier=thorough kind=bounded timeout=900 funcs="parser::quantized_parameters; parser::raw_samples" bound="order 2, 6 arbitrary input bytes, bit offset 0..=7" finding=F-C16-parser-panics
+//@ unit props=C16 tier=quick kind=bounded timeout=600 funcs="parser::quantized_parameters; parser::raw_samples" bound="order 2, 6 arbitrary input bytes, bit offset 0..=7" finding=F-C16-parser-panics
 #[kani::proof]
 #[kani::unwind(9)]
 #[kani::stub(std::fmt::format, stub_format)]
@@ -289,15 +289,9 @@ fn c16_quantized_parameters_order2() {
     c16_qp_body::<2, 6>();
 }
 
-/// Order 25 (subframe type 0b111000) exceeds the maximum LPC order of this crate (24; RFC 9639
-/// allows 32): must be an error, not an abort.
-//@ unit props=C16 tier=quick kind=bounded timeout=900 funcs="parser::quantized_parameters; parser::raw_samples" bound="order 25, 6 arbitrary input bytes (only 1-bit precision fits), bit offset 0..=7" finding=F-C16-parser-panics
-#[kani::proof]
-#[kani::unwind(28)]
-#[kani::stub(std::fmt::format, stub_format)]
-fn c16_quantized_parameters_order25() {
-    c16_qp_body::<25, 6>();
-}
+// (Order 25..=32 -- beyond this crate's maximum LPC order 24 -- needs unwind 27 over 25 `bit_take`
+// calls and exceeds 900 s; the `expect` it reaches was confirmed by concrete execution, see the
+// note at the end of this file.)
 
 // ================================================================================================
 // C16 (a)+(b): frame header on arbitrary bytes: no panic, and the CRC-8 is enforced
